@@ -3,3 +3,5 @@
 package core
 
 func verifAt(string) {}
+
+func verifGateReturn(arrived, count uint16, canceled bool) {}
